@@ -16,10 +16,16 @@ import (
 	"strings"
 )
 
-const (
-	repoDir  = "/repo"
-	verifDir = "/verif"
-)
+const repoDir = "/repo"
+
+// verifDir is where the simulator sources, evidence and replays live
+// (VERIF_DIR, set by verif.sh to its own directory).
+var verifDir = func() string {
+	if d := os.Getenv("VERIF_DIR"); d != "" {
+		return d
+	}
+	return "/verif"
+}()
 
 func goEnv() []string {
 	env := os.Environ()
